@@ -267,7 +267,7 @@ theorem sim_cacheSet {σ : Sh} {s t : St} (hR : StR σ s t) (key : String) (args
 
 theorem sim_newFrame {σ : Sh} {s t : St} (hR : StR σ s t) {nfs nft : Frame}
     (hfr : FrameR σ t.frames.size nfs nft) (hdec : FrameDec t.frames.size nft) :
-    SimAt σ (newFrame nfs) (newFrame nft) s t (fun a b => a = sh σ b) := by
+    SimAt σ (newFrame nfs) (newFrame nft) s t (fun a b => a = sh σ b ∧ σ.n0 ≤ b) := by
   unfold SimAt newFrame
   rw [runM_bind, runM_bind, runM_get, runM_get]
   dsimp only
@@ -275,7 +275,7 @@ theorem sim_newFrame {σ : Sh} {s t : St} (hR : StR σ s t) {nfs nft : Frame}
   dsimp only
   rw [runM_pure, runM_pure]
   have hsz : sh σ t.frames.size = s.frames.size := by rw [sh_of_ge σ hR.n0, hR.size]
-  refine ⟨?_, hsz.symm⟩
+  refine ⟨?_, hsz.symm, hR.n0⟩
   refine { hR with size := ?_, n0 := ?_, frames := ?_, dec := ?_ }
   · simp only [Array.size_push]; rw [hR.size]; omega
   · simp only [Array.size_push]; exact Nat.le_succ_of_le hR.n0
@@ -382,7 +382,7 @@ def renX (σ : Sh) : Except Obj Nat → Except Obj Nat
 
 theorem sim_extendFunctionEnv {σ : Sh} {s t : St} (hR : StR σ s t) (f : FuncVal) (args : List Obj) :
     SimAt σ (extendFunctionEnv (renFn σ f) (renL σ args)) (extendFunctionEnv f args) s t
-      (fun a b => a = renX σ b) := by
+      (fun a b => a = renX σ b ∧ ∀ n, b = .ok n → σ.n0 ≤ n) := by
   unfold extendFunctionEnv
   refine sim_curEnv_bind hR ?_
   refine sim_getFrame_bind hR t.cur ?_
@@ -405,7 +405,7 @@ theorem sim_extendFunctionEnv {σ : Sh} {s t : St} (hR : StR σ s t) (f : FuncVa
     intro o ho
     cases ho
     exact lt_of_frame hpte
-  rintro _ nenv s1 t1 hR1 rfl
+  rintro _ nenv s1 t1 hR1 ⟨rfl, hn0⟩
   -- everything after the (dereferenced) argument list is known
   have hrest : ∀ (A : List Obj) (s2 t2 : St), StR σ s2 t2 →
       SimAt σ
@@ -431,24 +431,26 @@ theorem sim_extendFunctionEnv {σ : Sh} {s t : St} (hR : StR σ s t) (f : FuncVa
                 if f.variadic = true then do
                   let _ ← setNoChecks nenv ".." (newArray (splitArgs f A).2.snd) true
                   pure (Except.ok nenv)
-                else pure (Except.ok nenv)) s2 t2 (fun a b => a = renX σ b) := by
+                else pure (Except.ok nenv)) s2 t2 (fun a b => a = renX σ b ∧ ∀ n, b = .ok n → σ.n0 ≤ n) := by
     intro A s2 t2 hR2
     rw [splitArgs_ren]
     dsimp only
     rw [renL_length, zip_ren]
-    refine SimAt.ite (fun _ => SimAt.pure hR2 rfl) (fun _ => ?_)
+    have hok : (Except.ok (sh σ nenv) : Except Obj Nat) = renX σ (Except.ok nenv) ∧
+        ∀ n, (Except.ok nenv : Except Obj Nat) = .ok n → σ.n0 ≤ n := ⟨rfl, fun n h => by cases h; exact hn0⟩
+    refine SimAt.ite (fun _ => SimAt.pure hR2 ⟨rfl, fun n h => by cases h⟩) (fun _ => ?_)
     refine SimAt.bind (sim_bindParams nenv _ s2 t2 hR2) ?_
     rintro _ r s3 t3 hR3 rfl
     cases r with
-    | some oerr => exact SimAt.pure hR3 rfl
+    | some oerr => exact SimAt.pure hR3 ⟨rfl, fun n h => by cases h⟩
     | none =>
       simp only [Option.map]
-      refine SimAt.ite (fun _ => ?_) (fun _ => SimAt.pure hR3 rfl)
+      refine SimAt.ite (fun _ => ?_) (fun _ => SimAt.pure hR3 hok)
       have := sim_setNoChecks hR3 nenv ".." (newArray (splitArgs f A).2.snd) true
       simp only [newArray, ren] at this
       refine SimAt.bind this ?_
       intro _ _ s4 t4 hR4 _
-      exact SimAt.pure hR4 rfl
+      exact SimAt.pure hR4 hok
   refine SimAt.ite (fun _ => ?_) (fun _ => ?_)
   · rw [renL_getLast?]
     cases hl : args.getLast? with
